@@ -27,6 +27,17 @@ pub const FALLBACK: &[&str] = &[
 ];
 
 pub fn check_pools() {
+    for fam in FAMILIES {
+        for m in fam.iter() {
+            if m.len() == 1 || m[0].chars().next().unwrap().is_uppercase() {
+                for w in m.iter() {
+                    assert!(!kw::is_keyword(w), "family word {} is a keyword", w);
+                }
+            } else {
+                assert!(PREFIXES.contains(&m[0]), "family prefix {}", m[0]);
+            }
+        }
+    }
     for w in FALLBACK {
         assert!(!kw::is_keyword(w), "fallback word {} is a keyword", w);
     }
@@ -36,6 +47,29 @@ pub fn check_pools() {
     }
     for w in PROPER_WORDS {
         assert!(w.chars().next().unwrap().is_uppercase());
+    }
+}
+
+/// families of distinct names whose letters run together to the same text: a table keyed by the flattened spelling
+/// (word breaks, prefix or kind ignored) would merge them
+const FAMILIES: &[&[&[&str]]] = &[
+    &[&["Super", "Man"], &["Su", "Perman"], &["Su", "Per", "Man"], &["superman"]],
+    &[&["Night", "Owl"], &["Nigh", "Towl"], &["nightowl"]],
+    &[&["an", "ice"], &["a", "nice"], &["anice"]],
+    &[&["my", "heart"], &["myheart"], &["Myhe", "Art"]],
+    &[&["the", "me"], &["theme"], &["Th", "Eme"]],
+];
+
+/// one member of a family: 1 word = simple, lower-case prefix + word = common, capitalised words = proper
+fn family_member(t: &mut Tape) -> Name {
+    let fam = FAMILIES[t.pick(FAMILIES.len())];
+    let m = fam[t.pick(fam.len())];
+    if m.len() == 1 {
+        Name::Simple(m[0].to_string())
+    } else if m[0].chars().next().map_or(false, |c| c.is_uppercase()) {
+        Name::Proper(m.iter().map(|w| w.to_string()).collect())
+    } else {
+        Name::Common(m[0].to_string(), m[1].to_string())
     }
 }
 
@@ -53,10 +87,11 @@ pub fn proper(t: &mut Tape) -> Name {
 }
 
 pub fn any(t: &mut Tape) -> Name {
-    match t.weighted(&[5, 3, 2]) {
+    match t.weighted(&[50, 30, 20, 9]) {
         0 => simple(t),
         1 => common(t),
-        _ => proper(t),
+        2 => proper(t),
+        _ => family_member(t),
     }
 }
 
